@@ -1,41 +1,43 @@
 """C10 - optimizers follow their published update rules; Levenberg-Marquardt descends (DESIGN 4/C10)."""
 LEVEL = "model_checking"
 RULE = ("P1/P2: the optimizer recurrences are TLA+ state machines over exact rationals (state = step count, iterate, "
-        "momentum / moment estimates, converged flag). TLC unrolls them for 60 SGD configurations (5 quadratic "
-        "objectives in 1..3 dimensions incl. a concave one, a coupled one and a start at the optimum; step sizes 1/4, "
-        "1/16; plain / momentum 1/2, 3/4 / Nesterov incl. momentum 0) to KS steps (quick 5, thorough 6) and 16 Adam "
-        "configurations (objectives sum c_i |x_i - a_i|, whose gradient has constant magnitude so that sqrt(vhat) = c_i"
-        " exactly - checked as an invariant - while mhat depends on beta1, the bias correction and the sign flips when "
-        "an iterate crosses a kink; eps in {0, 2^-10}) to 4 steps, plus 16 one-sided objectives c(|x - a| + (x - a)) "
-        "whose gradient component becomes exactly zero after the first step while its moments are not (b2 with "
-        "b2/(1+b2) a rational square keeps sqrt(vhat) rational; states whose root is irrational are neither expanded "
-        "nor emitted, and the check fails as a tool error if no exact zero-gradient state was emitted); invariants: "
-        "vhat = c^2, start at the optimum => stops after one step, Nesterov with momentum 0 = plain, scale equivariance"
-        " of one step (start, linear terms / kinks and Adam's step size times s move the iterate by s); every third "
-        "case is replayed again at the scales 2^-130 and 2^90; the closed form of a run without kink crossing (proved "
-        "equal to the recurrence on the unrolled states) gives the iterates after 60 and 400 steps; an inert coordinate"
-        " (never a gradient) placed at -2^55 must stay while the other coordinate follows the recurrence. Every "
-        "reachable state (configuration, k) is emitted with the exact k-th iterate; the harness calls optimize(.., "
-        "maxsteps = k) (and larger budgets once the spec has converged) and compares the returned vector (2^-40; SGD "
-        "cases also at the scale 2^600, where the value of the quadratic objective overflows while its gradient does "
-        "not), the number of objective evaluations (= steps taken: stops early only when nothing changed) and two runs "
-        "bit for bit, and the same call on an optimizer object that has already solved two other problems (one "
-        "parameter more, two fewer) bit for bit with the same number of evaluations (LM likewise). Configuration entry "
-        "points: Adam::default is the published setting (0.001, 0.9, 0.999, 1e-8), with_stepsize changes the step size "
-        "only, set_stepsize (Adam, SGD; on an object that has already run) equals construction - bit for bit on an "
-        "objective whose gradients are of the order of epsilon. LM: for 18 linear-in-parameter problems (wide and short"
-        " abscissa windows, 1..3 parameters) TLC computes the exact least-squares solution and s^2 (J^T J)^-1; the "
-        "harness runs LM from two poor starts: parameters (1e-7, or an excess RSS within 64 roundings of the minimal "
-        "RSS where the problem is too ill-conditioned for LM's own acceptance test to resolve more), covariance (1e-6),"
-        " RSS not above the start (windows on both sides and on one side of the origin), and LM::default() from a start"
-        " at +-1000 reaches the solution to 2e-5; P3: exponential / logistic / short-window line fits with noise, and "
-        "overflow-prone logistic-growth models L e^z/(1+e^z) from flat starts with budgets 1, 2, 5, 100 (descent and "
-        "finiteness only), every kind also in nano (2^-30) and mega (2^25) units of the response with unit-consistent "
-        "tolerances and budgets 1, 2, 3, 5, 100, and budget sweeps - twelve non-linear problems (six from mildly poor "
-        "starts, six textbook problems on a one-sided window from far-off starts that force rejected steps), each run "
-        "with every step budget 1..8, so that the budget runs out on accepted and on rejected steps - recorded and "
-        "validated by TLC (Trace_OptimLM): descent, finiteness, covariance shape, and the covariance certificate (J^T "
-        "J) C = s^2 I at the returned point in backward-error units (<= 64, measured <= 1).")
+        "momentum / moment estimates, converged flag). TLC unrolls them for 60 SGD configurations (two resonant "
+        "configurations - step size x curvature x (1 + momentum) = 1, where the look-ahead point of the second Nesterov"
+        " step is the minimiser -, 5 quadratic objectives in 1..3 dimensions incl. a concave one, a coupled one and a "
+        "start at the optimum; step sizes 1/4, 1/16; plain / momentum 1/2, 3/4 / Nesterov incl. momentum 0) to KS steps"
+        " (quick 5, thorough 6) and 16 Adam configurations (objectives sum c_i |x_i - a_i|, whose gradient has constant"
+        " magnitude so that sqrt(vhat) = c_i exactly - checked as an invariant - while mhat depends on beta1, the bias "
+        "correction and the sign flips when an iterate crosses a kink; eps in {0, 2^-10}) to 4 steps, plus 16 one-sided"
+        " objectives c(|x - a| + (x - a)) whose gradient component becomes exactly zero after the first step while its "
+        "moments are not (b2 with b2/(1+b2) a rational square keeps sqrt(vhat) rational; states whose root is "
+        "irrational are neither expanded nor emitted, and the check fails as a tool error if no exact zero-gradient "
+        "state was emitted); invariants: vhat = c^2, start at the optimum => stops after one step, Nesterov with "
+        "momentum 0 = plain, scale equivariance of one step (start, linear terms / kinks and Adam's step size times s "
+        "move the iterate by s); every third case is replayed again at the scales 2^-130 and 2^90; the closed form of a"
+        " run without kink crossing (proved equal to the recurrence on the unrolled states) gives the iterates after 60"
+        " and 400 steps; an inert coordinate (never a gradient) placed at -2^55 must stay while the other coordinate "
+        "follows the recurrence. Every reachable state (configuration, k) is emitted with the exact k-th iterate; the "
+        "harness calls optimize(.., maxsteps = k) (and larger budgets once the spec has converged) and compares the "
+        "returned vector (2^-40; SGD cases also at the scale 2^600, where the value of the quadratic objective "
+        "overflows while its gradient does not), the number of objective evaluations (= steps taken: stops early only "
+        "when nothing changed) and two runs bit for bit, and the same call on an optimizer object that has already "
+        "solved two other problems (one parameter more, two fewer) bit for bit with the same number of evaluations (LM "
+        "likewise). Configuration entry points: Adam::default is the published setting (0.001, 0.9, 0.999, 1e-8), "
+        "with_stepsize changes the step size only, set_stepsize (Adam, SGD; on an object that has already run) equals "
+        "construction - bit for bit on an objective whose gradients are of the order of epsilon. LM: for 18 linear-in-"
+        "parameter problems (wide and short abscissa windows, 1..3 parameters) TLC computes the exact least-squares "
+        "solution and s^2 (J^T J)^-1; the harness runs LM from two poor starts: parameters (1e-7, or an excess RSS "
+        "within 64 roundings of the minimal RSS where the problem is too ill-conditioned for LM's own acceptance test "
+        "to resolve more), covariance (1e-6), RSS not above the start (windows on both sides and on one side of the "
+        "origin), and LM::default() from a start at +-1000 reaches the solution to 2e-5; P3: exponential / logistic / "
+        "short-window line fits with noise, and overflow-prone logistic-growth models L e^z/(1+e^z) from flat starts "
+        "with budgets 1, 2, 5, 100 (descent and finiteness only), every kind also in nano (2^-30) and mega (2^25) units"
+        " of the response with unit-consistent tolerances and budgets 1, 2, 3, 5, 100, and budget sweeps - twelve non-"
+        "linear problems (six from mildly poor starts, six textbook problems on a one-sided window from far-off starts "
+        "that force rejected steps), each run with every step budget 1..8, so that the budget runs out on accepted and "
+        "on rejected steps - recorded and validated by TLC (Trace_OptimLM): descent, finiteness, covariance shape, and "
+        "the covariance certificate (J^T J) C = s^2 I at the returned point in backward-error units (<= 64, measured <="
+        " 1).")
 ASSUMPTIONS = ["exactness horizon: k <= 6 (SGD) / 4 (Adam) steps because of 32-bit integers in TLC; k up to 200/2000 of the quantifier is not reached",
                "objectives restricted to those whose recurrences stay rational (quadratics for SGD, weighted absolute values for Adam)"]
 EXHAUSTIVE = True
